@@ -232,8 +232,10 @@ class NodeExistence:
     def __hash__(self):
         if self._hash is None:
             self._hash = hash((
-                tuple([(k, tuple(v)) for k, v in self.src_n_conn_override.items()]) if self.src_n_conn_override is not None else -1,
-                tuple([(k, tuple(v)) for k, v in self.tgt_n_conn_override.items()]) if self.tgt_n_conn_override is not None else -1,
+                tuple([(k, tuple(v)) for k, v in sorted(self.src_n_conn_override.items())])
+                if self.src_n_conn_override is not None else -1,
+                tuple([(k, tuple(v)) for k, v in sorted(self.tgt_n_conn_override.items())])
+                if self.tgt_n_conn_override is not None else -1,
                 self.max_src_conn_override, self.max_tgt_conn_override,
             ))
         return self._hash
